@@ -163,6 +163,9 @@ def run_property(prop, tier, seed):
     allh = discover()
     tiers = ("quick",) if tier == "quick" else ("quick", "thorough")
     hs = [h for h in allh if prop in h["props"] and h["tier"] in tiers]
+    only = os.environ.get("VERIF_ONLY_ENGINE")  # development aid: run one engine's share of the property
+    if only:
+        hs = [h for h in hs if h["engine"] == only]
     thorough_only = [h for h in allh if prop in h["props"] and h["tier"] == "thorough"]
     if not hs:
         log(f"no harness serves {prop}")
@@ -216,6 +219,15 @@ def run_property(prop, tier, seed):
     vcount = 0
     os.makedirs(os.path.join(VERIF, "replays"), exist_ok=True)
     emitted = set()
+    by_eng = {}
+    for ob, h, r, eng in violations:
+        if hasattr(eng, "prefetch_counterexamples"):
+            by_eng.setdefault(eng.name, (eng, {}))[1][h["name"]] = h
+    for eng, hmap in by_eng.values():
+        try:
+            eng.prefetch_counterexamples(list(hmap.values()), log)
+        except Exception as e:  # noqa: BLE001
+            log(f"[{eng.name}] counterexample prefetch failed: {e!r}")
     for ob, h, r, eng in violations:
         key = (h["name"], ob)
         if key in emitted:
@@ -256,10 +268,24 @@ def run_property(prop, tier, seed):
                 rec["native_replay"] = {"error": repr(e)}
                 suffix = " no-failing-input-found"
         else:
-            rec["note"] = "the verifier gave no concrete input for this obligation"
-            if cex:
-                rec["verifier_extra"] = cex.get("raw", "")[-4000:]
-            suffix = " no-failing-input-found"
+            # a harness without symbolic inputs (concrete text enumerations) IS its own input: Kani emits no
+            # playback values for it; run it natively with an empty value list
+            nat = None
+            try:
+                nat = eng.native_replay(h, [], log)
+            except Exception as e:  # noqa: BLE001
+                rec["native_replay"] = {"error": repr(e)}
+            if nat and nat.get("reproduced"):
+                rec["values"] = []
+                rec["native_replay"] = nat
+                rec["note"] = "the harness has no symbolic input (concrete text); it was executed natively as is"
+            else:
+                rec["note"] = "the verifier gave no concrete input for this obligation"
+                if nat:
+                    rec["native_replay_without_values"] = nat
+                if cex:
+                    rec["verifier_extra"] = cex.get("raw", "")[-4000:]
+                suffix = " no-failing-input-found"
         json.dump(rec, open(rp, "w"), indent=1)
         print(f"VIOLATION property={prop} replay={rp}{suffix}")
     # evidence
@@ -356,8 +382,10 @@ def write_evidence(prop, tier, seed, results, units, undecided, vcount, knownhit
         "wall_s": round(wall, 2),
         "violations": vcount,
     }
-    os.makedirs(os.path.join(VERIF, "evidence"), exist_ok=True)
-    json.dump(ev, open(os.path.join(VERIF, "evidence", f"{prop}.json"), "w"), indent=1)
+    # runs against a scratch tree (VERIF_REPO set: seeded changes, mutations) must not overwrite the evidence of /repo
+    edir = os.path.join(VERIF, "evidence") if REPO == "/repo" else os.path.join(VERIF, ".work", "evidence-scratch")
+    os.makedirs(edir, exist_ok=True)
+    json.dump(ev, open(os.path.join(edir, f"{prop}.json"), "w"), indent=1)
 
 
 def do_replay(path):
